@@ -194,9 +194,13 @@ def main():
             test_trees = train_trees
         else:
             test_trees = [[rng.choice(lexi) for _ in range(rng.randint(1, 4))] for _ in range(rng.randint(1, 5))]
+            if rng.random() < 0.4:
+                # a test text may contain units never seen in training
+                extra = sl.rand_tree(rng, sl.PHONES[fam][:6], nwords=1, maxsyll=2, maxphones=2)[0]
+                test_trees.append([extra, rng.choice(lexi)])
         test_units = [[u for w in t for u in units_of_word(w, level)] for t in test_trees]
-        kind = KINDS[k % 3]
-        thr = Fraction(rng.randint(0, 8), 8)
+        kind = KINDS[(k // 3) % 3]      # crossed with the phone family (k % 3), not in lockstep with it
+        thr = Fraction(rng.randint(0, 8), 8) if rng.random() < 0.7 else Fraction(rng.randint(0, 1000), 1000)
         pwb = rng.choice([None, None, Fraction(0), Fraction(1, 8), Fraction(1, 4), Fraction(1, 2), Fraction(1)])
         cases.append(make_case(train_trees, sep, style, level, test_units, kind, thr, pwb, 'trees-%s-%s' % (fam, level)))
     for c in cases:
